@@ -14,6 +14,7 @@ extern unsigned sysrand_deliveries;     /* successful deliveries so far */
 extern int sysrand_flip_delivery;       /* if >= 0: flip bit sysrand_flip_bit of byte sysrand_flip_byte of that delivery */
 extern unsigned sysrand_flip_byte, sysrand_flip_bit;
 extern int sysrand_mode;                /* 0 = dense tape, 1 = all-zero, 2 = all-FF */
+extern unsigned sysrand_opens, sysrand_closes, sysrand_bad_closes;   /* device configuration only (VP_SYSRAND_DEVICE): open / close calls on the random device, and closes of a descriptor the library no longer owns */
 void sysrand_reset(uint64_t seed);
 void sysrand_expected(unsigned delivery, uint8_t *out, size_t n); /* what delivery d contains */
 #endif
